@@ -239,10 +239,13 @@ const (
 	FRune
 	FSepSwap
 	FEdge
+	FTranspose
+	FRepeatSeg
+	FDigitRun
 	NumFaults
 )
 
-var faultNames = [...]string{"intact", "truncate", "bitflip", "bytesub", "insert", "delete", "doubled", "pad-over-limit", "empty", "foreign", "caseflip", "space", "rune", "separators-swapped", "range-edge-neighbour"}
+var faultNames = [...]string{"intact", "truncate", "bitflip", "bytesub", "insert", "delete", "doubled", "pad-over-limit", "empty", "foreign", "caseflip", "space", "rune", "separators-swapped", "range-edge-neighbour", "transposed", "segment-repeated", "digit-run-replaced"}
 
 var interesting = [...]byte{'0', '9', '-', '.', '+', 'v', 'a', 'Z', ' ', '_', '/', ':', 0xa0, 0xc3, 0x00, 0xff, '"', '{', '}', ':', ',', 'M', 'i', 'B', 'k', '\n', 'e', 'E', 'x'}
 
@@ -379,6 +382,54 @@ func applyFault(t *core.Tape, f int, rec []byte, foreign func() []byte) []byte {
 		}
 		b[i] = c
 		return b
+	case FTranspose:
+		// two neighbouring bytes change places (a typing slip; keeps the length and the alphabet)
+		if n < 2 {
+			return b
+		}
+		i := t.Choose(n - 1)
+		b[i], b[i+1] = b[i+1], b[i]
+		return b
+	case FRepeatSeg:
+		// a segment of the record appears twice in a row (1.2.3 -> 1.2.2.3, XIV -> XIXIV)
+		if n == 0 {
+			return b
+		}
+		i := t.Choose(n)
+		l := 1 + t.Choose(min(n-i, 6))
+		out := append([]byte(nil), b[:i+l]...)
+		out = append(out, b[i:i+l]...)
+		return append(out, b[i+l:]...)
+	case FDigitRun:
+		// one run of ASCII digits is replaced by a number that is awkward in some way: leading
+		// zeros, the edges of the integer types, a sign, another radix or notation, digits from
+		// other scripts (unicode.IsDigit is not '0'..'9')
+		type run struct{ from, to int }
+		var runs []run
+		for i := 0; i < n; {
+			if b[i] < '0' || b[i] > '9' {
+				i++
+				continue
+			}
+			j := i
+			for j < n && b[j] >= '0' && b[j] <= '9' {
+				j++
+			}
+			runs = append(runs, run{i, j})
+			i = j
+		}
+		if len(runs) == 0 {
+			return b
+		}
+		r := runs[t.Choose(len(runs))]
+		old := string(b[r.from:r.to])
+		alts := [...]string{"0" + old, "000" + old, "00000000000000000000" + old, "255", "256", "65535", "65536", "2147483647", "2147483648", "4294967295", "4294967296",
+			"9223372036854775807", "9223372036854775808", "18446744073709551615", "18446744073709551616", "99999999999999999999999999", "-" + old, "+" + old, "-0", "0x" + old, old + "e2", old + ".0", "1_000",
+			"\u0661\u0662\u0663", "\uff11\uff12", "\u0967", old + "\u00b2", "\u2460"}
+		alt := alts[t.Choose(len(alts))]
+		out := append([]byte(nil), b[:r.from]...)
+		out = append(out, alt...)
+		return append(out, b[r.to:]...)
 	case FSepSwap:
 		// another writer's convention: every occurrence of one punctuation byte of the record
 		// becomes another one (2024-02-03 -> 2024/02/03, 1.2.3-rc.1 -> 1_2_3-rc_1, ...)
@@ -414,6 +465,13 @@ func applyFault(t *core.Tape, f int, rec []byte, foreign func() []byte) []byte {
 			out = append(out, []byte{' ', ' ', ' ', '\t', '_'}[t.Choose(5)])
 		}
 		return append(out, b[i:]...)
+	}
+	return b
+}
+
+func min(a, b int) int {
+	if a < b {
+		return a
 	}
 	return b
 }
